@@ -45,8 +45,31 @@ func libBrotliAll(b []byte) ([]byte, error) {
 	return out, err
 }
 
+func fnvHex(b []byte) string {
+	h := uint64(14695981039346656037)
+	for _, c := range b {
+		h = (h ^ uint64(c)) * 1099511628211
+	}
+	return fmt.Sprintf("%016x", h)
+}
+
+func brdResult(out []byte, cls string, full bool) string {
+	if cls != "eof" && !full {
+		cls = "rej"
+	}
+	return fmt.Sprintf("%s:%d:%s:%s", hx(out[:min(len(out), 64)]), len(out), fnvHex(out), cls)
+}
+
 func execBrd(o *Out, id, line string) {
-	_, kv := parseLine(line)
+	kind, kv := parseLine(line)
+	if kind == "btr" { // one dictionary transform: Go transformWord vs the Lean table
+		word := unhx(kv["word"])
+		t, _ := strconv.Atoi(kv["t"])
+		got := brotli.VerifTransformWord(word, t)
+		o.Count("transform")
+		o.Emit(id, line, fmt.Sprintf("btr id=%s word=%s t=%d", id, hx(word), t), hx(got), kv["word"]+"/"+kv["t"])
+		return
+	}
 	in := unhx(kv["in"])
 	var out []byte
 	var err error
@@ -73,7 +96,7 @@ func execBrd(o *Out, id, line string) {
 	if len(out) > 0 || err == nil {
 		key = kv["in"]
 	}
-	o.Emit(id, line, "", hx(out[:min(len(out), 64)])+":"+cls, key)
+	o.Emit(id, line, "brd id="+id+" in="+hx(in), brdResult(out, cls, false), key)
 	if cls != "eof" && cls != "corrupt" && cls != "ueof" {
 		o.Violate("C09", "brotli.Reader failed with class "+cls+": "+err.Error(), "class-"+cls, line)
 	}
@@ -123,6 +146,23 @@ func execBrd(o *Out, id, line string) {
 				if e != nil || !bytes.Equal(got, out) {
 					o.Violate("C10", fmt.Sprintf("brotli through source %s with nothing after the stream: err=%v equal=%v", src, e, bytes.Equal(got, out)), "source-shape-at-end", line)
 					break
+				}
+			}
+		}
+		// cuts of a valid stream: exactly io.ErrUnexpectedEOF, in the implementation and in the specification
+		if L := min(int(inOff), len(in)); L <= 3000 {
+			for q, k := 0, 0; q < 6 && L > 0; q++ {
+				k = (k*7 + int(in[q%L]) + q*13) % L
+				cout, cerr, _, _ := dsnetBrotliAll(in[:k], "bytes", nil)
+				ccls := "eof"
+				if cerr != nil {
+					ccls = errClass(cerr)
+				}
+				o.Emit(fmt.Sprintf("%sc%d", id, q), "", fmt.Sprintf("brd id=%sc%d cls=1 in=%s", id, q, hx(in[:k])), brdResult(cout, ccls, true), "")
+				if ccls != "ueof" {
+					o.Violate("C09", fmt.Sprintf("brotli stream of %d bytes cut at %d ends with class %s, not io.ErrUnexpectedEOF", L, k, ccls), "cut-class", line)
+				} else if !bytes.HasPrefix(out, cout) {
+					o.Violate("C12", fmt.Sprintf("brotli stream cut at %d delivers bytes that are not a prefix of the full output", k), "cut-prefix", line)
 				}
 			}
 		}
@@ -223,6 +263,19 @@ func genBrd(r *Rand, tier string, emit func(string)) {
 			if thorough {
 				per = 40
 			}
+			ntr := 20
+			if thorough {
+				ntr = 200
+			}
+			for q := 0; q < ntr; q++ { // the transform itself: Go transformWord vs the Lean transform table
+				idx := r.Intn(nw)
+				if q%2 == 1 && len(hi) > 0 {
+					idx = hi[r.Intn(len(hi))]
+				}
+				for t := 0; t < 121; t++ {
+					emit(fmt.Sprintf("btr word=%s t=%d", hx(dict[off+idx*L:off+(idx+1)*L]), t))
+				}
+			}
 			for t := 0; t < 121; t++ {
 				for q := 0; q < per; q++ {
 					idx := r.Intn(nw)
@@ -281,7 +334,7 @@ func genBrd(r *Rand, tier string, emit func(string)) {
 func init() {
 	register(&Family{
 		Name: "brd",
-		Rule: "Brotli inputs: every string of <= 1 byte and a stride (quick) or all (thorough) of the 2-byte strings; libbrotlienc output at qualities 0-11 for random, run-heavy, low-entropy and English-like (static-dictionary) data up to 250 KB and the repository's testdata files; one-command streams that emit a static-dictionary word under each of the 121 transforms for every word length (words with bytes >= 0xc0 preferred); streams from an independent synthesiser (every WBITS/NPOSTFIX/NDIRECT, simple prefix codes incl. one-symbol codes, arbitrary ring-buffer distance codes incl. explicit codes for a repeated distance, static-dictionary references for random (length, word, transform), several meta-blocks with different codes, uncompressed and metadata meta-blocks, MLEN off by one); bit flips, byte overwrites, truncations and extensions of all of those. Each input goes through dsnet brotli.Reader and libbrotlidec; accepted streams are re-read through ReadByte-only / bufio16 / bytes.Reader sources with a trailer and with Read sizes {1}, {0,0,1,0,7}, {3,100000}. Oracle-only family (no Lean model of the Brotli format yet). Non-trivial = produced output or accepted",
+		Rule: "Brotli inputs: every string of <= 1 byte and a stride (quick) or all (thorough) of the 2-byte strings; libbrotlienc output at qualities 0-11 for random, run-heavy, low-entropy and English-like (static-dictionary) data up to 250 KB and the repository's testdata files; one-command streams that emit a static-dictionary word under each of the 121 transforms for every word length (words with bytes >= 0xc0 preferred); streams from an independent synthesiser (every WBITS/NPOSTFIX/NDIRECT, simple prefix codes incl. one-symbol codes, arbitrary ring-buffer distance codes incl. explicit codes for a repeated distance, static-dictionary references for random (length, word, transform), several meta-blocks with different codes, uncompressed and metadata meta-blocks, MLEN off by one); bit flips, byte overwrites, truncations and extensions of all of those. Each input goes through dsnet brotli.Reader and libbrotlidec; accepted streams are re-read through ReadByte-only / bufio16 / bytes.Reader sources with a trailer and with Read sizes {1}, {0,0,1,0,7}, {3,100000}. Every input is also decoded by the Lean specification of RFC 7932 (verdict, output length and hash; reject class on cuts of valid streams), and the 121 dictionary transforms are compared with the Lean transform table on sampled words of every length. Non-trivial = produced output or accepted",
 		Gen:  genBrd,
 		Exec: execBrd,
 	})
